@@ -24,6 +24,9 @@
            of A that occur AS BYTE STRINGS in w, preimages = an arbitrary oracle Pre consistent with
            A's ([pre_consistent]; "every preimage that exists"), locks = A's (the signed
            transaction fixes nLockTime / nSequence; this is what the root's `s` justifies).
+         - [C03_unique_exact]: when Pre knows at least the preimages A knows, the published witness is
+           itself an entry of the third party's table ([C03_witness_in_adversary_table]); so that table,
+           as a set, is EXACTLY {w}: In w' (all_sat ke (adv_assets A Pre w) m) <-> w' = w.
          - [C03_unique_dissat_table]: the same for the dissatisfaction the model returns;
            [C03_impossible_table]: what the model calls Impossible no third party can do either;
            [C03_hassig_table]: a satisfaction marked has_sig cannot be rebuilt without a signature
@@ -64,7 +67,7 @@
        adversary's alphabet are executed on the extracted Script semantics. *)
 From Verif Require Import Exec Ser Ast Types TypeCheck SatSpec Sat ExecLemmas TheoremA SatProofs HasSigProofs.
 From Verif Require Import CompleteProofs CompleteNonMall SignedLemmas SignedSound
-  NonMallUnique NonMallUniqueThresh NonMallUniqueMulti NonMallUniqueMain NonMallUniqueExamples NonMallUniqueStatic.
+  NonMallUnique NonMallUniqueThresh NonMallUniqueMulti NonMallUniqueMain NonMallUniqueExamples NonMallUniqueStatic NonMallUniqueExact.
 From Coq Require Import Permutation.
 
 Theorem C03_hassig_bookkeeping_partial : forall (ke : keyenv) (se : senv) (rhs : bool) (m : ms),
@@ -103,6 +106,27 @@ Theorem C03_unique :
   forall w', In w' (all_sat ke (adv_assets A Pre (rev bs)) m) -> w' = rev bs.
 Proof. exact nonmall_unique. Qed.
 Print Assumptions C03_unique.
+
+Theorem C03_witness_in_adversary_table :
+  forall (ke : keyenv) (A : assets) (se : senv) (f : fill) (Pre : hkind -> bytes -> option bytes),
+  linked ke A se f -> (forall ks, length (ksort ke ks) = length ks) ->
+  (forall kd h p, look A kd h = Some p -> Pre kd h = Some p) ->
+  forall (mall rhs : bool) (m : ms), kwf m ->
+  forall bs, satisfy ke se f mall rhs m = Some bs ->
+  In (rev bs) (all_sat ke (adv_assets A Pre (rev bs)) m).
+Proof. exact nonmall_witness_in_adv_table. Qed.
+Print Assumptions C03_witness_in_adversary_table.
+
+Theorem C03_unique_exact :
+  forall (ke : keyenv) (A : assets) (se : senv) (f : fill) (Pre : hkind -> bytes -> option bytes),
+  linked ke A se f -> locks_compatible se -> (forall ks, Permutation (ksort ke ks) ks) ->
+  sigs_distinct ke A -> (forall kd h p, look A kd h = Some p -> Pre kd h = Some p) ->
+  forall (rhs : bool) (m : ms) (t : ty),
+  uwf m -> NoDup (ukeys m) -> type_of m = ROk t -> m_nm (t_mall t) = true ->
+  forall bs, satisfy ke se f false rhs m = Some bs ->
+  forall w', In w' (all_sat ke (adv_assets A Pre (rev bs)) m) <-> w' = rev bs.
+Proof. exact nonmall_unique_exact. Qed.
+Print Assumptions C03_unique_exact.
 
 Theorem C03_unique_dissat_table :
   forall (ke : keyenv) (A : assets) (se : senv) (f : fill),
